@@ -71,6 +71,24 @@ def run(ctx):
         rp = vlib.run_tlc("ReloadConc", "ReloadConc_peek.cfg", pid + "-model2p", workers=4, timeout=600)
         if rp.violation is None:
             raise vlib.InfraError("ReloadConc_peek.cfg is expected to violate an invariant (sanity of the model) but did not: %s" % rp.out[-400:])
+        if tier == "thorough":
+            # unbounded number of reloads: inductive invariant discharged by Apalache (Init => IndInv, IndInv /\ Next => IndInv', IndInv => Safe)
+            import shutil
+            apa = []
+            if shutil.which("apalache-mc"):
+                awd = vlib.mkdir(os.path.join(wd, "apalache"), clean=True)
+                for f in ("ReloadConcInd.tla", "ReloadConcInd.cfg"):
+                    shutil.copy(os.path.join(vlib.SPEC, f), awd)
+                for args in (["--init=Init", "--inv=IndInv", "--length=0"], ["--init=InitInd", "--inv=IndInv", "--length=1"],
+                             ["--init=InitInd", "--inv=Safe", "--length=0"]):
+                    rca, outa = vlib.sh(["apalache-mc", "check", "--config=ReloadConcInd.cfg"] + args + ["ReloadConcInd.tla"], cwd=awd, timeout=900)
+                    ok = "The outcome is: NoError" in outa
+                    apa.append({"obligation": " ".join(args), "discharged": ok})
+                    if not ok and "The outcome is: Error" in outa:
+                        raise vlib.InfraError("ReloadConcInd: inductive obligation %s fails (spec bug): %s" % (args, outa[-600:]))
+                shutil.rmtree(os.path.join(awd, "_apalache-out"), ignore_errors=True)
+            cov["model_reload_inductive"] = {"spec": "ReloadConcInd.tla", "tool": "apalache-mc 0.58", "obligations": apa or "apalache-mc not found",
+                                             "meaning": "OneGeneration, NoUseAfterFree, Fresh, RaceFree hold for any number of reloads (two readers)"}
         cov["model_reload"] = {"spec": "ReloadConc.tla", "cfg": "ReloadConc.cfg", **r2.summary(),
                                "checked": "TypeOK OneGeneration NoUseAfterFree Fresh RaceFree",
                                "sanity": "ReloadConc_peek.cfg (root read before the lock) violates %s" % rp.violation}
